@@ -178,135 +178,6 @@ theorem mem_reindex_of_ne {k k' : κ} {b : β} {nv ov : List β} {idx : List (β
 end Reindex
 
 
-section ReindexVia
-variable {γ β κ : Type} [DecidableEq γ] [DecidableEq β] [DecidableEq κ]
-
-theorem mem_reindexVia {f : γ → β} {k k' : κ} {b : β} {nv ov : List γ} {idx : List (β × κ)} :
-    (b, k') ∈ reindexVia f k nv ov idx ↔
-      ((b, k') ∈ idx ∨ (k' = k ∧ ∃ a, a ∈ nv ∧ a ∉ ov ∧ f a = b)) ∧
-        ¬ (k' = k ∧ ∃ a, a ∈ ov ∧ a ∉ nv ∧ f a = b) := by
-  simp only [reindexVia, mem_idelAll, mem_isetAll, List.mem_map, mem_findMissing, Prod.mk.injEq]
-  constructor
-  · rintro ⟨h1 | h1, h2⟩
-    · obtain ⟨b', ⟨a, ⟨ha1, ha2⟩, rfl⟩, rfl, rfl⟩ := h1
-      refine ⟨Or.inr ⟨rfl, a, ha1, ha2, rfl⟩, ?_⟩
-      rintro ⟨_, a', ha1', ha2', he⟩
-      exact h2 ⟨f a, ⟨a', ⟨ha1', ha2'⟩, he⟩, rfl, rfl⟩
-    · refine ⟨Or.inl h1, ?_⟩
-      rintro ⟨rfl, a', ha1', ha2', he⟩
-      exact h2 ⟨b, ⟨a', ⟨ha1', ha2'⟩, he⟩, rfl, rfl⟩
-  · rintro ⟨h1 | ⟨rfl, a, ha1, ha2, rfl⟩, h2⟩
-    · refine ⟨Or.inr h1, ?_⟩
-      rintro ⟨b', ⟨a', ⟨ha1', ha2'⟩, rfl⟩, rfl, rfl⟩
-      exact h2 ⟨rfl, a', ha1', ha2', rfl⟩
-    · refine ⟨Or.inl ⟨f a, ⟨a, ⟨ha1, ha2⟩, rfl⟩, rfl, rfl⟩, ?_⟩
-      rintro ⟨b', ⟨a', ⟨ha1', ha2'⟩, rfl⟩, hb, _⟩
-      exact h2 ⟨rfl, a', ha1', ha2', hb⟩
-
-/-- entries of other entities are untouched by a `reindexVia` -/
-theorem mem_reindexVia_of_ne {f : γ → β} {k k' : κ} {b : β} {nv ov : List γ} {idx : List (β × κ)}
-    (h : k' ≠ k) : (b, k') ∈ reindexVia f k nv ov idx ↔ (b, k') ∈ idx := by
-  rw [mem_reindexVia]; simp [h]
-
-end ReindexVia
-
-section IdxVia
-variable {α γ β κ : Type} [DecidableEq γ] [DecidableEq β] [DecidableEq κ] {key : α → κ}
-  {tv : α → List γ} {f : γ → β}
-
-/-- TEXT-diffed, `f`-keyed re-indexing never leaves a stale entry: writing entity `e` keeps
-"every index entry is named by a stored entity" (no hypothesis on `f`). -/
-theorem idxSound_kputVia {ents : List α} {idx : List (β × κ)} (hn : (ents.map key).Nodup)
-    (h : IdxSound ents key (fun e => (tv e).map f) idx) (e : α) (nv ov : List γ)
-    (hnv : ∀ a, a ∈ nv ↔ a ∈ tv e)
-    (hov : ∀ a, a ∈ ov ↔ ∃ o, kget key ents (key e) = some o ∧ a ∈ tv o) :
-    IdxSound (kput key e ents) key (fun e => (tv e).map f) (reindexVia f (key e) nv ov idx) := by
-  rintro ⟨b, k⟩ hp
-  by_cases hk : k = key e
-  · subst hk
-    obtain ⟨h1, h2⟩ := mem_reindexVia.mp hp
-    refine ⟨e, mem_kput.mpr (Or.inl rfl), rfl, ?_⟩
-    rcases h1 with h1 | ⟨_, a, ha, _, rfl⟩
-    · obtain ⟨o, ho, hko, hb⟩ := h (b, key e) h1
-      obtain ⟨a, ha, rfl⟩ := List.mem_map.mp hb
-      have hget : kget key ents (key e) = some o := by
-        have := kget_of_mem hn ho
-        rw [hko] at this; exact this
-      by_cases han : a ∈ nv
-      · exact List.mem_map.mpr ⟨a, (hnv a).mp han, rfl⟩
-      · exact absurd ⟨rfl, a, (hov a).mpr ⟨o, hget, ha⟩, han, rfl⟩ h2
-    · exact List.mem_map.mpr ⟨a, (hnv a).mp ha, rfl⟩
-  · have hp' := (mem_reindexVia_of_ne hk).mp hp
-    obtain ⟨e', he', hke', hb⟩ := h (b, k) hp'
-    exact ⟨e', mem_kput.mpr (Or.inr ⟨he', by rw [hke']; exact hk⟩), hke', hb⟩
-
-/-- deleting the entity with key `k` and un-indexing its texts leaves no stale entry -/
-theorem idxSound_kdelVia {ents : List α} {idx : List (β × κ)} (hn : (ents.map key).Nodup)
-    (h : IdxSound ents key (fun e => (tv e).map f) idx) (k : κ) (o : α) (ho : kget key ents k = some o)
-    (ov : List γ) (hov : ∀ a, a ∈ ov ↔ a ∈ tv o) :
-    IdxSound (kdel key k ents) key (fun e => (tv e).map f) (reindexVia f k [] ov idx) := by
-  rintro ⟨b, k'⟩ hp
-  by_cases hk : k' = k
-  · subst hk
-    exfalso
-    obtain ⟨h1, h2⟩ := mem_reindexVia.mp hp
-    rcases h1 with h1 | ⟨_, a, ha, _⟩
-    · obtain ⟨e, he, hke, hb⟩ := h (b, k') h1
-      have : e = o := by
-        have := kget_of_mem hn he
-        rw [hke, ho] at this
-        exact (Option.some.inj this).symm
-      subst this
-      obtain ⟨a, ha, rfl⟩ := List.mem_map.mp hb
-      exact h2 ⟨rfl, a, (hov a).mpr ha, by simp, rfl⟩
-    · simp at ha
-  · have hp' := (mem_reindexVia_of_ne hk).mp hp
-    obtain ⟨e, he, hke, hb⟩ := h (b, k') hp'
-    exact ⟨e, mem_kdel.mpr ⟨he, by rw [hke]; exact hk⟩, hke, hb⟩
-
-/-- When `f` is injective on the texts involved (one spelling per account), TEXT-diffed,
-`f`-keyed re-indexing also loses nothing. -/
-theorem idxComplete_kputVia {ents : List α} {idx : List (β × κ)} (hn : (ents.map key).Nodup)
-    (h : IdxComplete ents key (fun e => (tv e).map f) idx) (e : α) (nv ov : List γ)
-    (hnv : ∀ a, a ∈ nv ↔ a ∈ tv e)
-    (hov : ∀ a, a ∈ ov ↔ ∃ o, kget key ents (key e) = some o ∧ a ∈ tv o)
-    (hinj : ∀ a a', (a ∈ nv ∨ a ∈ ov) → (a' ∈ nv ∨ a' ∈ ov) → f a = f a' → a = a') :
-    IdxComplete (kput key e ents) key (fun e => (tv e).map f) (reindexVia f (key e) nv ov idx) := by
-  intro e' he' b hb
-  rcases mem_kput.mp he' with rfl | ⟨hel, hne⟩
-  · obtain ⟨a, ha, rfl⟩ := List.mem_map.mp hb
-    have han : a ∈ nv := (hnv a).mpr ha
-    refine mem_reindexVia.mpr ⟨?_, ?_⟩
-    · by_cases hao : a ∈ ov
-      · obtain ⟨o, hget, hao'⟩ := (hov a).mp hao
-        left
-        have := h o (kget_some hget).1 (f a) (List.mem_map.mpr ⟨a, hao', rfl⟩)
-        rw [(kget_some hget).2] at this
-        exact this
-      · exact Or.inr ⟨rfl, a, han, hao, rfl⟩
-    · rintro ⟨_, a', ha'o, ha'n, he⟩
-      have := hinj a' a (Or.inr ha'o) (Or.inl han) he
-      subst this
-      exact ha'n han
-  · exact (mem_reindexVia_of_ne hne).mpr (h e' hel b hb)
-
-/-- deleting an entity never loses an entry of ANOTHER entity -/
-theorem idxComplete_kdelVia {ents : List α} {idx : List (β × κ)}
-    (h : IdxComplete ents key (fun e => (tv e).map f) idx) (k : κ) (ov : List γ) :
-    IdxComplete (kdel key k ents) key (fun e => (tv e).map f) (reindexVia f k [] ov idx) := by
-  intro e he b hb
-  obtain ⟨hel, hne⟩ := mem_kdel.mp he
-  exact (mem_reindexVia_of_ne hne).mpr (h e hel b hb)
-
-/-- after the entity with key `k` is deleted no entry of a SOUND index mentions `k` -/
-theorem idxSound_no_entry_after_del {ents : List α} {idx : List (β × κ)} {k : κ} {vals : α → List β}
-    (h : IdxSound (kdel key k ents) key vals idx) : ∀ p ∈ idx, p.2 ≠ k := by
-  intro p hp hk
-  obtain ⟨e, he, hke, _⟩ := h p hp
-  exact (mem_kdel.mp he).2 (hke.trans hk)
-
-end IdxVia
-
 section IdxExact
 variable {α β κ : Type} [DecidableEq β] [DecidableEq κ] {key : α → κ} {vals : α → List β}
 
